@@ -580,6 +580,12 @@ impl<T: Transport, Env: UtpEnvironment> VirtualSocket<T, Env> {
         let mut sent_count = 0;
 
         let mut message_too_long = None;
+        let mut probe_does_not_fit = None;
+
+        let nothing_in_flight = self
+            .user_tx_segments
+            .calc_flight_size(self.last_sent_seq_nr)
+            == 0;
 
         // Send the stuff we haven't sent yet, up to sender's window.
         for mut item in self
@@ -589,6 +595,12 @@ impl<T: Transport, Env: UtpEnvironment> VirtualSocket<T, Env> {
             if remaining_cwnd < item.payload_size() {
                 METRICS.send_window_exhausted.increment(1);
                 trace_every_ms!(100, "remote recv window exhausted");
+                // A size probe that was never sent and doesn't fit the window while nothing is in flight
+                // would wait forever: no ACK is coming that could open the window for it.
+                if nothing_in_flight && sent_count == 0 && item.is_mtu_probe() && item.send_count() == 0
+                {
+                    probe_does_not_fit = Some(item.seq_nr());
+                }
                 break;
             }
 
@@ -621,6 +633,16 @@ impl<T: Transport, Env: UtpEnvironment> VirtualSocket<T, Env> {
                     break;
                 }
                 Err(e) => return Err(e),
+            }
+        }
+
+        if let Some(seq_nr) = probe_does_not_fit {
+            // Its bytes go back to the unsegmented part of the stream and are segmented at a proven size
+            // (the probe cooldown is still armed).
+            if self.user_tx_segments.pop_mtu_probe(seq_nr) {
+                debug!(?seq_nr, remaining_cwnd, "MTU probe doesn't fit the window, will segment it again");
+                self.segment_sizes.skip_next_probe();
+                self.this_poll.restart = true;
             }
         }
 
